@@ -14,6 +14,10 @@ from vlib.acc import Acc
 from vlib.ref import pct
 
 ID = "C01"
+ENGINE = 'E1 word enumerator'
+TECHNIQUE = 'bounded-exhaustive enumeration of token words through every text entry point and quoter configuration on the real code, RFC 3986 character-set oracle'
+LEVEL_TEXT = "Every word up to the stated length over an alphabet containing every ASCII character, each UTF-8 length class, lone surrogates and every escape shape is pushed through every text-accepting entry point (both backends) and every quoter configuration; the produced URL must be ASCII with only RFC-legal characters per component. Exhaustive within the bounds reported in the evidence; generalises by the quoters' bounded look-ahead."
+LEVEL_NOTE = "Trusts the RFC character tables in vlib/ref/pct.py and the alphabet's class representatives; words longer than the bound are covered only by the bounded-memory argument."
 BACKENDS = ("c", "py")
 RULE = ("cases = (entry point, word): every word of the stated bounded word spaces is placed in the component position of every "
         "route in vlib/routes.py (constructor templates, build, with_*, /, joinpath, join, query operations in every argument "
